@@ -171,6 +171,13 @@ def jv_obj(v, from_dict=False):
     return atom(v)
 
 
+def v0_order(fr, case, d):
+    """the fields of the verification against the dictionary as written by hand, in the order the result holds them"""
+    with quiet(), contextlib.redirect_stdout(io.StringIO()):
+        v0 = verify_df(cx.to_df(fr), copy.deepcopy(case['set']), repair=False)
+    return list(v0.fields.items())
+
+
 def load_dict(d):
     cs = DatasetConstraints()
     with quiet():
@@ -432,6 +439,13 @@ class C09(core.Prop):
                     return F
                 frame_for_verdicts = None
                 cycles = case.get('cycles', 1)
+                # every kind the set names (a null value included: "no constraint of this kind in force") is there after loading
+                for name_, f_ in case['set']['fields'].items():
+                    have_ = set(cs0.fields[name_].constraints) if name_ in cs0.fields else set()
+                    lost_ = sorted(k_ for k_ in f_ if k_ in STANDARD_FIELD_CONSTRAINTS and k_ not in have_)
+                    if lost_:
+                        fail('values-differ', 'field %r: kinds %r of the dictionary are not in the loaded constraints (values %r)'
+                             % (name_, lost_, [f_[k_] for k_ in lost_]), 'values-differ:kinds-lost-on-load')
             try:
                 text0 = cs0.to_json()
             except Exception as e:
@@ -520,6 +534,24 @@ class C09(core.Prop):
                     if {n: dict(x) for n, x in r1.fields.items()} != {n: dict(x) for n, x in r2.fields.items()}:
                         fail('verdicts-differ', 'with repair of column types: the dictionary and the file give different verdicts',
                              'verdicts-differ:dict-vs-file:repair')
+                    if 'set' in case:
+                        # verdicts come in one order of kinds whichever way the constraints were given
+                        if [(n, list(x)) for n, x in v0_order(fr, case, d)] != [(n, list(x)) for n, x in v2.fields.items()]:
+                            fail('verdicts-differ', 'the kinds of the verdicts come in another order for the dictionary as written '
+                                 'than for the re-serialised file', 'verdicts-differ:order')
+                        # a type given as a tuple in an in-memory dictionary is the list the file holds
+                        tup = copy.deepcopy(case['set'])
+                        has_tuple = False
+                        for f_ in tup['fields'].values():
+                            if isinstance(f_.get('type'), list):
+                                f_['type'] = tuple(f_['type'])
+                                has_tuple = True
+                        if has_tuple:
+                            with quiet(), contextlib.redirect_stdout(io.StringIO()):
+                                vt = verify_df(cx.to_df(fr), tup, repair=False)
+                            if {n: dict(x) for n, x in vt.fields.items()} != b:
+                                fail('verdicts-differ', 'a type given as a tuple in the in-memory dictionary and the list in the '
+                                     'file give different verdicts', 'verdicts-differ:tuple-type')
                     if 'set' in case:
                         # the dictionary as written by hand (any key order) against the re-serialised file
                         with quiet(), contextlib.redirect_stdout(io.StringIO()):
